@@ -181,6 +181,10 @@ func (g *bridgeGen) newDepositTx(flaw string) *depInfo {
 	if err != nil {
 		return nil
 	}
+	if g.r.Intn(3) == 0 { // a second answer (for another user) is fetched before the first one is used: answers must not share memory
+		other := g.evms[g.r.Intn(len(g.evms))]
+		qs.DepositAddress(c.ReadCtx(), &bitcointypes.QueryDepositAddress{Version: uint32(g.r.Intn(2)), EvmAddress: "0x" + hex.EncodeToString(other)})
+	}
 	addr, err := btcutil.DecodeAddress(resp.Address, g.net)
 	if err != nil {
 		return nil
@@ -864,13 +868,18 @@ func (g *bridgeGen) plan(mode string) (*BlockPlan, error) {
 			off++
 			tx.BF["pfOk"] = true
 			plan.Txs = append(plan.Txs, &RelTx{Bytes: bz, Ev: "other", F: Ev{}, BEv: tx.BEv, BF: tx.BF})
-		case x < 18: // finalize
-			m, f := g.finalizeMsg(vc, st)
-			if m == nil {
-				continue
-			}
-			if err := add(m, "finalize", f); err != nil {
-				return nil, err
+		case x < 18: // finalize (often two batches one after the other in the same block: the paid notices of both are owed)
+			for rep := 0; rep < 2; rep++ {
+				m, f := g.finalizeMsg(vc, st)
+				if m == nil {
+					break
+				}
+				if err := add(m, "finalize", f); err != nil {
+					return nil, err
+				}
+				if rare(2) {
+					break
+				}
 			}
 		case x >= 20: // consolidation: a voted transaction with exactly one output, paying the current relayer key
 			if votedUsed {
